@@ -133,13 +133,14 @@ def run(ctx):
             ast = RX.parse(pat)[0]
         except RX.Unsupported:
             continue
-        for _ in range(4 if ctx.tier == 'quick' else 40):
-            w = RX.sample(ast, rng)
+        for k_ in range(5 if ctx.tier == 'quick' else 40):
+            w = RX.sample(ast, rng, minimal=(k_ == 0))      # the first sample takes every repetition at its lower bound
             # a pattern written against already generalised text (@{run}/media/...): back to a concrete path
             for var, val in (('@{run}', '/run'), ('@{HOME}', '/home/alice'), ('@{PROC}', '/proc'), ('@{sys}', '/sys'), ('@{bin}', '/usr/bin'),
                              ('@{lib}', '/usr/lib'), ('@{user_config_dirs}', '/home/alice/.config'), ('@{user_cache_dirs}', '/home/alice/.cache'),
                              ('@{user_share_dirs}', '/home/alice/.local/share'), ('@{tmp}', '/tmp'), ('@{etc_ro}', '/etc'), ('@{etc_rw}', '/etc'),
-                             ('@{MOUNTS}', '/media/alice/disk'), ('@{pid}', '4321'), ('@{uid}', '1000'), ('@{user}', 'alice')):
+                             ('@{MOUNTS}', '/media/alice/disk'), ('@{pid}', '4321'), ('@{uid}', '1000'), ('@{user}', 'alice'),
+                             ('@{pci_bus}', 'pci0000:00'), ('@{arch}', 'x86_64'), ('@{tid}', '77'), ('@{att}', '')):
                 w = w.replace(var, val)
             if re.search(r'/(proc|task)/0[0-9]*(/|$)', w):
                 continue        # no process or thread has id 0 or an id written with a leading zero
@@ -147,6 +148,10 @@ def run(ctx):
                 continue        # the kernel logs normalised paths: no empty component
             if w.startswith('/'):
                 cands = [w + 'x', w.rstrip('/') + '/sub/file']
+            elif w.startswith('pci'):
+                cands = ['/sys/devices/' + w + ('' if w.endswith('/') else '/') + t_ for t_ in ('power/control', 'uevent', 'config')]
+            elif w.endswith('/'):
+                cands = ['/opt/app/' + w + 'lib.so', '/srv/' + w + 'x']
             else:
                 cands = ['/opt/app/' + w + '/lib.so', '/usr/lib/jvm/java-17-openjdk-' + w, '/srv/' + w]
             extra.append(rng.choice(cands))
